@@ -240,6 +240,57 @@ def main(chk):
     except Exception as e:
       chk.violation(key, f'raised {type(e).__name__}: {str(e)[:160]}', {})
 
+  # the same recurrences with non-default gate / activation functions, Linen and NNX cells (their own parameters, float64 reference)
+  acts = {'tanh': (jnp.tanh, np.tanh), 'relu': (jax.nn.relu, lambda a: np.maximum(a, 0.0)), 'soft_sign': (jax.nn.soft_sign, lambda a: a / (1.0 + np.abs(a)))}
+  gates = {'sigmoid': (jax.nn.sigmoid, sig), 'hard_sigmoid': (jax.nn.hard_sigmoid, lambda a: np.clip(a + 3.0, 0.0, 6.0) / 6.0)}
+
+  def lin_of(layer, a):
+    out = a @ np.asarray(layer.kernel.value, np.float64)
+    return out + np.asarray(layer.bias.value, np.float64) if getattr(layer, 'bias', None) is not None else out
+  for an, (ja, na) in acts.items():
+    for gn, (jg, ng) in gates.items():
+      def lstm_ref(d, names):
+        i = ng(d(names[0], xs1) + d(names[4], h0)); f = ng(d(names[1], xs1) + d(names[5], h0))
+        g = na(d(names[2], xs1) + d(names[6], h0)); o = ng(d(names[3], xs1) + d(names[7], h0))
+        cn = f * c0 + i * g
+        return cn, o * na(cn)
+      carry_l = (jnp.asarray(c0, jnp.float32), jnp.asarray(h0, jnp.float32))
+      xj1 = jnp.asarray(xs1, jnp.float32)
+      trials = {}
+      try:
+        cell = nn.LSTMCell(H, gate_fn=jg, activation_fn=ja)
+        v = cell.init(jax.random.key(5), carry_l, xj1)
+        (cn, hn), y = cell.apply(v, carry_l, xj1)
+        trials['linen.LSTMCell'] = ((np.asarray(cn), np.asarray(y)), lstm_ref(lambda n, a: dense(v['params'], n, a), ['ii', 'if', 'ig', 'io', 'hi', 'hf', 'hg', 'ho']))
+        ncell = nnx.LSTMCell(D, H, gate_fn=jg, activation_fn=ja, rngs=nnx.Rngs(1))
+        (cn, hn), y = ncell(carry_l, xj1)
+        trials['nnx.LSTMCell'] = ((np.asarray(cn), np.asarray(y)), lstm_ref(lambda n, a: lin_of(getattr(ncell, n), a), ['ii', 'if_', 'ig', 'io', 'hi', 'hf', 'hg', 'ho']))
+        if gn == 'sigmoid':
+          for res in (False, True):
+            scell = nn.SimpleCell(H, activation_fn=ja, residual=res)
+            sv = scell.init(jax.random.key(5), carry_l[1], xj1)
+            _, y = scell.apply(sv, carry_l[1], xj1)
+            want = na(dense(sv['params'], 'i', xs1) + dense(sv['params'], 'h', h0) + (h0 if res else 0.0))
+            trials[f'linen.SimpleCell(residual={res})'] = ((np.asarray(y),), (want,))
+            nsc = nnx.SimpleCell(D, H, activation_fn=ja, residual=res, rngs=nnx.Rngs(2))
+            _, y = nsc(carry_l[1], xj1)
+            want = na(lin_of(nsc.dense_i, xs1) + lin_of(nsc.dense_h, h0) + (h0 if res else 0.0))
+            trials[f'nnx.SimpleCell(residual={res})'] = ((np.asarray(y),), (want,))
+          gcell = nn.GRUCell(H, gate_fn=jg, activation_fn=ja)
+          gv = gcell.init(jax.random.key(5), carry_l[1], xj1)
+          _, y = gcell.apply(gv, carry_l[1], xj1)
+          pp = gv['params']
+          r, z = ng(dense(pp, 'ir', xs1) + dense(pp, 'hr', h0)), ng(dense(pp, 'iz', xs1) + dense(pp, 'hz', h0))
+          trials['linen.GRUCell'] = ((np.asarray(y),), ((1 - z) * na(dense(pp, 'in', xs1) + r * dense(pp, 'hn', h0)) + z * h0,))
+      except Exception as e:
+        chk.violation(f'C13:recurrence:{an}/{gn}', f'raised {type(e).__name__}: {str(e)[:160]}', {})
+      for cname, (got, want) in trials.items():
+        key = f'C13:recurrence:{cname}:activation={an}:gate={gn}'
+        chk.count(key)
+        if not all(np.allclose(g_, w_, rtol=1e-4, atol=1e-5) for g_, w_ in zip(got, want)):
+          chk.violation(key, f'{cname}(activation_fn={an}, gate_fn={gn}): one step differs from the documented recurrence '
+                             f'(max abs err {max(float(np.abs(g_ - w_).max()) for g_, w_ in zip(got, want)):.3g})', {})
+
   # ------------------------------------------------------------------------------------------------ attention
   ra = tlc.require_ok(tlc.run('SeqIndex', 'SeqIndex_attn.cfg', workers=1, timeout=900), 'SeqIndex attn')
   chk.add_tlc(ra, 'SeqIndex attention visibility + decode cache machine')
@@ -275,6 +326,23 @@ def main(chk):
         exp[0][:, qi][:, ks] = e / e.sum(-1, keepdims=True)
     if not np.allclose(w, exp, rtol=1e-5, atol=1e-6):
       chk.violation(key + ':weights', 'attention weights differ from softmax(q.k/sqrt(d) + bias) over the visible positions', case)
+    # the functional forms, also with more than one batch dimension: output = weights . values over the visible positions
+    vv = rs.randint(-2, 3, size=(1, T, Hh, Dm)).astype(np.float32)
+    want_o = np.einsum('bhqk,bkhd->bqhd', exp, vv.astype(np.float64))
+    rows = [qi for qi in range(T) if vis[qi]]
+    for api, fn in (('linen', nn.dot_product_attention), ('nnx', nnx.dot_product_attention)):
+      for nb in (1, 2, 3):      # number of batch dimensions
+        lead = (1, 2, 3)[:nb - 1]
+        tile = lambda a: np.broadcast_to(a, lead + a.shape).copy()
+        try:
+          o = np.asarray(fn(jnp.asarray(tile(q)), jnp.asarray(tile(k)), jnp.asarray(tile(vv)), bias=jnp.asarray(tile(bias)), mask=jnp.asarray(tile(mask))), np.float64)
+        except Exception as e:
+          chk.violation(key + f':{api}-functional:batch-dims={nb}', f'raised {type(e).__name__}: {str(e)[:160]}', case)
+          continue
+        o = o.reshape((-1,) + o.shape[-3:])
+        if not all(np.allclose(o[i][rows], want_o[0][rows], rtol=1e-4, atol=1e-5) for i in range(o.shape[0])):
+          chk.violation(key + f':{api}-functional:batch-dims={nb}', f'{api} dot_product_attention with {nb} batch dimension(s), bias and mask differs from '
+                                                                   'softmax(q.k/sqrt(d) + bias) . v over the visible positions', case)
     # non-interference: perturb keys / values at invisible positions (for every query) -> bit-identical outputs
     mha = nn.MultiHeadDotProductAttention(num_heads=Hh, qkv_features=Dm * Hh)
     xq = rs.randn(1, T, 6).astype(np.float32)
